@@ -871,6 +871,12 @@ where
             let blob = read_blob(reader, len)?;
             return feed_eor(recognizer, blob);
         }
+        marker if is_ext(marker) => {
+            return match read_ext(reader, marker)? {
+                Either::Left(n) => feed_eor(recognizer, n),
+                Either::Right(n) => feed_eor(recognizer, n),
+            }
+        }
         ow => return Err(MsgPackReadError::InvalidMarker(ow)),
     };
 
